@@ -244,7 +244,13 @@ def check_es(ctx, ES, x, y, ts, taumax, lag, cid, relations=False,
             shift = k
         else:
             shift = float(rr.integers(-40, 41)) / 4.0
-            x2, y2, ts2 = x, y, np.asarray(ts) + shift
+            if rr.random() < 0.3:
+                # epoch-sized offsets (POSIX seconds, day numbers): still
+                # exact in double precision for quarter-step stamps
+                shift = float(rr.choice([2.0 ** 24, 2.0 ** 25 + 1, 1.7e9,
+                                         -2.0 ** 31, 2.0 ** 40, 2451545.0]))
+                ctx.count("shift_epoch_sized")
+            x2, y2, ts2 = x, y, np.asarray(ts, dtype=float) + shift
         with warnings.catch_warnings():
             warnings.simplefilter("ignore")
             ok, o3 = ctx.call(ES.event_synchronization, x2, y2, ts1=ts2,
@@ -352,7 +358,13 @@ def check_eca(ctx, ES, x, y, ts, taumax, lag, cid, relations=False,
             shift = k
         else:
             shift = float(rr.integers(-40, 41)) / 4.0
-            x2, y2, ts2 = x, y, np.asarray(ts) + shift
+            if rr.random() < 0.3:
+                # epoch-sized offsets (POSIX seconds, day numbers): still
+                # exact in double precision for quarter-step stamps
+                shift = float(rr.choice([2.0 ** 24, 2.0 ** 25 + 1, 1.7e9,
+                                         -2.0 ** 31, 2.0 ** 40, 2451545.0]))
+                ctx.count("shift_epoch_sized")
+            x2, y2, ts2 = x, y, np.asarray(ts, dtype=float) + shift
         with warnings.catch_warnings():
             warnings.simplefilter("ignore")
             ok, o3 = ctx.call(ES.event_coincidence_analysis, x2, y2, taumax,
